@@ -34,6 +34,19 @@ var c15Addrs = []string{
 	"anyone@corp.example", "x@тест.example", "rené@example.org", "postmaster@example.org",
 	// domains that merely end in / contain an entitled domain
 	"ceo@notexample.org", "ceo@sub.example.org", "boss@mycorp.example", "boss@evil-corp.example", "x@нетест.example", "alice@example.org.victim.example",
+	// addresses the address validator of maddy does not take (a local part that needs quoting, an over-long one) in a
+	// domain that has a fullwidth commercial at before an entitled domain: it is not that domain
+	"x(@victim.example\uff20corp.example", "x(@victim.example\uff20example.org", strings.Repeat("x", 330) + "@victim.example\uff20corp.example",
+}
+
+// c15Header spells the address for a header field: the local part is quoted when it has to be (the envelope
+// carries it without the quotes, go-smtp removes them).
+func c15Header(a string) string {
+	at := strings.LastIndexByte(a, '@')
+	if at < 0 || !strings.ContainsAny(a[:at], "()<>[]:;@\\,\" ") {
+		return a
+	}
+	return "\"" + strings.NewReplacer("\\", "\\\\", "\"", "\\\"").Replace(a[:at]) + "\"" + a[at:]
 }
 
 var c15Users = []string{"alice@example.org", "bob@example.org", "carol@тест.example", "dave", "rené@example.org"}
@@ -87,8 +100,11 @@ type c15Mailbox struct {
 }
 
 func (m c15Mailbox) render() string {
-	a := c15Spell(c15Addrs[m.Addr.Idx], m.Addr.Form)
+	a := c15Header(c15Spell(c15Addrs[m.Addr.Idx], m.Addr.Form))
 	decoy := c15Addrs[m.Decoy]
+	if len(decoy) > 100 {
+		decoy = c15Addrs[0]
+	}
 	switch m.Style {
 	case 0:
 		return a
@@ -460,7 +476,7 @@ func TestVerifC15(t *testing.T) {
 	r.Rule("Scenario = configuration (user_to_email identity / single-value / multi-value table with address, domain and '*' entitlements; prepare_email identity / alias table; " +
 		"from_normalize and auth_normalize settings; check_header) x authenticated user or none x MAIL FROM x 0-3 From fields of 1-3 mailboxes (bare, angle, display name, display name that " +
 		"looks like another address, RFC 2047 encoded name, comment; group syntax; folding) x optional Sender, every address a spelling variant (case, NFD, A-label, upper-case A-label) of a " +
-		"member of a small universe. The check's CheckSender and CheckBody are called as the pipeline does. Oracle (one direction): accepted => authenticated and envelope sender entitled and " +
+		"member of a small universe (which includes addresses maddy's address validator refuses - a local part that needs quoting, one of 330 octets - in a domain that merely has a fullwidth at-sign before an entitled domain). The check's CheckSender and CheckBody are called as the pipeline does. Oracle (one direction): accepted => authenticated and envelope sender entitled and " +
 		"(all From addresses entitled or Sender entitled), entitlement decided by a reference model over base identities; which addresses are in the header is known by construction. " +
 		"Non-trivial = authenticated and (the model forbids acceptance, or several From fields/addresses, or a non-canonical spelling). Distinct = distinct scenario.")
 	ev.Run(t, r, ev.Spec[c15Scenario]{Name: "authorize", N: r.N, Gen: c15Gen, Run: c15Run, Info: c15Info})
